@@ -30,6 +30,7 @@ TNext == \/ IsEvent("Call") /\ Call(Ev.act[2], Ev.act[3]) /\ PinsMatch /\ CallMa
          \/ IsEvent("CallRacing") /\ CallRacing(Ev.act[2], Ev.act[3], Ev.act[4]) /\ PinsMatch /\ CallMatch
          \/ IsEvent("CallStoreFault") /\ CallStoreFault(Ev.act[2], Ev.act[3], Ev.act[4]) /\ PinsMatch /\ CallMatch
          \/ IsEvent("ContextCycle") /\ ContextCycle /\ PinsMatch
+         \/ IsEvent("ReopenFault") /\ ReopenFault(Ev.act[2]) /\ PinsMatch
          \/ IsEvent("Rotate") /\ Rotate(Ev.act[2], Ev.act[3]) /\ PinsMatch
          \/ IsEvent("Trust") /\ Trust(Ev.act[2], Ev.act[3]) /\ PinsMatch
          \/ IsEvent("Revoke") /\ Revoke(Ev.act[2]) /\ PinsMatch
